@@ -26,10 +26,12 @@ def _verify_one(q):
         q, sl = q[0], (q[1], q[2])
     eng = _engine()
     eng.kind_gaps.clear()
+    from .vc import CROSS
+    cross0 = dict(CROSS["stats"])
     t0 = time.time()
     try:
         r = vc.verify_function(eng, q, eng.contracts[q], specsym.make_args, fork_slice=sl)
-        out = dict(qualname=q, obligations=r.obligations, paths=r.paths, forks=r.forks, covers=r.covers,
+        out = dict(cross={k: v - cross0.get(k, 0) for k, v in CROSS["stats"].items()}, qualname=q, obligations=r.obligations, paths=r.paths, forks=r.forks, covers=r.covers,
                    limitation=r.limitation, source_hash=r.source_hash, wall=time.time() - t0, hints=dict(eng.hints),
                    kind_gaps=sorted(eng.kind_gaps))
     except CheckerError as e:
@@ -299,6 +301,13 @@ def run_functions(report, qualnames, tier="quick", bounded_limit=None, monitor=T
                 run_bounded(report, q, tier, "checker limitation: " + r["limitation"], bounded_limit)
             except CheckerError as e:
                 raise CheckerError(f"{q}: verifier limitation ({r['limitation']}) and the bounded stand-in failed: {e}")
+    if os.environ.get("PVC_CROSS_EVERY"):
+        tot = report.extra.setdefault("solver_cross_check", {})
+        for r in parts:
+            for k, v in (r.get("cross") or {}).items():
+                tot[k] = tot.get(k, 0) + v
+        report.extra["solver_cross_check_note"] = ("every %s-th obligation discharged by z3 5.1 re-decided by z3 4.8.12 and cvc5 1.0.3 on "
+                                                    "the SMT-LIB text; 'unknown' means the second solver timed out (20 s), never a disagreement" % os.environ["PVC_CROSS_EVERY"])
     report.extra.setdefault("vc_wall_s", 0)
     report.extra["vc_wall_s"] += round(time.time() - t0, 2)
     return results
